@@ -28,6 +28,12 @@ CHECKS = {
     text="Search, not proof: 1.2k (quick) to 40k (thorough) live sessions, each fetching the init segment of every Representation, all segments within 3 of either window edge and 12 (quick) / 400 (thorough) interior ones.",
     note=SHIMS + ". Availability model: vt/mpd.py (shares no code with dashlive).",
     design_ref="DESIGN.md section 4, C01"),
+ "C02": dict(
+    engine="hypothesis (generated sessions)",
+    technique="generated live sessions; served segment bytes read with an independent box reader and compared with the advertised S@t/S@d/$Number$; delivered stored segment identified by payload and located by an independent scan (metamorphic: presentation time mod reference duration)",
+    text="Search, not proof: 0.9k (quick) to 30k (thorough) live sessions with loop counts up to 1e7 (decode times beyond 2^32 ticks), every timeline checked for gaps over its whole length.",
+    note=SHIMS + ". Box reader vt/isobox.py shares no code with dashlive. One open known finding (C02-K1, drift correction advertised but not present in the samples).",
+    design_ref="DESIGN.md section 4, C02"),
 }
 
 _PENDING = "check under construction in this build round; not yet registered (see DESIGN.md section 9)"
